@@ -37,6 +37,13 @@ def build_session(rng, tmp, kind, metric, thorough):
     for j in range(nq):
         if rng.random() < 0.5:
             Q[j] = X[rng.randrange(n)]          # copies of training samples
+    if rng.random() < 0.5:
+        # exact zeros in training and query features: scale-free metrics (canberra, clark, divergence, vicis_*) see a 0/0
+        # coordinate there; anything that lets a call leave traces in the features shows up as history dependence
+        for A in (X, Q):
+            for _ in range(max(2, len(A) // 2)):
+                A[rng.randrange(len(A)), rng.randrange(A.shape[1])] = 0.0
+        Q[1] = X[0]
     Xu = np.abs(r.normal(size=(3, 2))) + 0.25
     Xv = X[:: 2].copy() + 0.01
     Yv = Y[:: 2].copy()
@@ -88,7 +95,7 @@ def run(tier, seed):
     thorough = tier == "thorough"
     tmp = H.subdir("c09files")
     sessions = []
-    mets = ["euclidean", "log_squared_euclidean", "manhattan", "chebyshev", "canberra", "chi_squared", "squared_chord", "gower"]
+    mets = ["euclidean", "log_squared_euclidean", "manhattan", "chebyshev", "canberra", "chi_squared", "squared_chord", "gower", "clark", "divergence", "vicis_wave_hedges"]
     for i in range(400 if thorough else 72):
         kind = ["sup", "semi", "knn", "unsup"][i % 4]
         sessions.append((build_session(rng, tmp, kind, rng.choice(mets), thorough), {"kind": kind, "i": i}))
